@@ -1,4 +1,5 @@
 import IPT.Thm.C07
 import IPT.Thm.C08
+import IPT.Thm.C11
 import IPT.Thm.C14
 import IPT.Thm.C17
